@@ -105,7 +105,9 @@ def bufioReadLine (fuel : Nat) (w : W) : W × LineRes :=
     -- a trailing CR is put back so that a CRLF split across pieces is still recognised
     if bs.getLast? == some CR then ({ w1 with buf := [CR] }, .piece bs.dropLast true)
     else (w1, .piece bs true)
-  | (w1, .errWith bs e) => if bs.isEmpty then (w1, .err e) else (w1, .piece bs false)
+  -- bufio hands out the unterminated rest of the input as a line (nil error) when the source fails; `Conn.readLine` turns
+  -- that back into the source's error (repaired: a command cut short by a disconnect or a timeout is not executed)
+  | (w1, .errWith _ e) => (w1, .err e)
   | (w1, .line bs) =>
     let body := bs.dropLast    -- without LF
     let body := if body.getLast? == some CR then body.dropLast else body
